@@ -688,9 +688,9 @@ def cont_run(sm):
     s = sm.s
     idle = 0
     while sm.events < sm.max_events:
-        sm._poll()
+        offers = sm._poll()
         if not s.inflight:
-            idle += 1
+            idle = 0 if offers else idle + 1
             if idle >= 2 or s.status() in COMPLETED:
                 break
             continue
